@@ -135,7 +135,7 @@ def run_once(sc, src, dst, fl, ids, k=1, extra_env=None, extra_args=(), select=N
     rr = world.run_sy([src, dst] + cli_of(fl) + list(extra_args), sc)
     sc.env.clear(); sc.env.update(old_env)
     after = world.snapshot(dst)
-    evs, nerr, badlines, errpaths, summary = [], 0, 0, [], None
+    evs, nerr, badlines, errpaths, summary, fatal = [], 0, 0, [], None, None
     for line in rr["out"].split("\n"):
         line = line.strip()
         if not line:
@@ -149,6 +149,9 @@ def run_once(sc, src, dst, fl, ids, k=1, extra_env=None, extra_args=(), select=N
             continue
         t = ev.get("type")
         if t == "error":
+            if os.path.relpath(ev.get("path", ""), dst) == ".":
+                fatal = ev.get("error", "")          # the whole run failed (refusal, unusable state file ...): not a per-file error
+                continue
             nerr += 1
             errpaths.append(os.path.relpath(ev.get("path", ""), dst))
         if t == "summary":
@@ -167,7 +170,7 @@ def run_once(sc, src, dst, fl, ids, k=1, extra_env=None, extra_args=(), select=N
     obs = "refused=%d exit=%s nerr=%d evs=%s dst=%s" % (refused, rr["rc"], nerr, ",".join(evs) or "-", dst_line(after, ids, run_start, k))
     raw = {"rc": rr["rc"], "stderr": rr["err"][-400:], "badlines": badlines, "before": dsnap, "after": after, "src": ssnap, "events": evs,
            "timeout": rr["timeout"], "stdout_tail": rr["out"][-300:], "kept": [rel for _, rel, _ in kept],
-           "errpaths": errpaths, "summary": summary}
+           "errpaths": errpaths, "summary": summary, "fatal": fatal}
     return case, obs, raw
 
 
